@@ -581,6 +581,13 @@ def run(tier_name=None, replay=None):
             laws["r"] = judge.run_laws("Quota", workers=2)
         except Exception as ex:     # noqa
             laws["err"] = str(ex)
+        if thorough:
+            # extra evidence, never a verdict: the boundary laws proved for ALL limits by TLAPS (spec/proofs/QuotaProofs.tla)
+            try:
+                okp, pst, ptail = judge.run_proofs("QuotaProofs", timeout=600)
+                laws["proofs"] = dict(pst, all_proved=okp)
+            except Exception as ex:     # noqa
+                laws["proofs"] = {"all_proved": False, "error": str(ex)[:200]}
     th = threading.Thread(target=laws_thread)
     th.start()
 
@@ -664,6 +671,8 @@ def run(tier_name=None, replay=None):
         "tlc_cpu_s": stats["tlc_cpu_s"],
         "laws_model_checked": "MC_Quota (L_DATA=4, L_DEF=6, L_NAME=3, L_HIST=5): points agree, size <= L, boundary, monotone, empty, "
                               "two readings, documented errors, shift to the real limits, history over %d (point, size, size) triples" % lawstats["law_states"]}
+    if laws.get("proofs"):
+        v.coverage["tlaps_proofs_of_the_boundary_laws_for_all_limits"] = laws["proofs"]
     v.assumptions = ["the size of a value the engine serialises itself is the length of its json.dumps text; where the most compact JSON text of the same value "
                      "would be decided differently, either outcome is accepted (bare strings, whose text is unique, carry the exact boundary)",
                      "history: between 'the whole history fits' and 'a state is entered beyond the limit' (only closing events lie beyond it) either outcome is accepted; "
